@@ -16,7 +16,8 @@
 //!  R3  without alloc, the serde bridge rejects indefinite-length strings in
 //!      `deserialize_any` — accepted only for serde operations with a type
 //!      error positioned at 0x5f / 0x7f;
-//!  R4  without alloc, `collect_str` is refused (operation serde.ser.collect_str).
+//!  R4  without alloc, `collect_str` is refused (operation serde.ser.collect_str, accepted only
+//!      if the no-alloc outcome is that refusal: a message-class encode error).
 //!
 //! Error *texts* are never compared.
 //!
@@ -169,7 +170,8 @@ fn permitted(op: &str, input: &[u8], lo: &Outc, lo_alloc: bool, lo_half: bool, h
                 }
             }
         }
-        if op == "serde.ser.collect_str" {
+        // the documented difference is the *refusal* (a message-class encode error), not other output
+        if op == "serde.ser.collect_str" && lo.class == "enc_message" {
             return Some("R4 no-alloc collect_str");
         }
     }
